@@ -44,7 +44,7 @@ META = {
                     'navigation/TOC (which repeat titles only) cannot contribute body markers',
                     'the (input x configuration) product of the quantifier is sampled; the run-independence clause is what '
                     'the simulator adds'],
-    'probe_names': ['corpus_document', 'split_above_all_levels', 'split_below_all_levels', 'generated_id_unit', 'label_id_unit',
+    'probe_names': ['no_failsafe_alternative_error', 'corpus_document', 'split_above_all_levels', 'split_below_all_levels', 'generated_id_unit', 'label_id_unit',
                     'same_title_prefix', 'empty_title', 'single_file_template', 'stale_same_name', 'unrelated_docs_before',
                     'footnote_in_subunit', 'exec_env', 'starred_unit', 'e2_history'],
     'shrink_budget': 60,
@@ -281,7 +281,10 @@ def gen_template(r):
         a = r.choice(['$id', '$title', '$title(1)', '$title(2)', '$title(3)', 'x-$id', '$id-s', '${title}_t', '$name-$id',
                       'u$title(1)', '$ref', 's$num-$id'])
         alts.append(a)
-    alts.append(r.choice(['sect$num', 'sect$num(4)', 'f$num(3)', '$num', 'file-$num(2)']))
+    if not (alts and r.random() < 0.1):
+        alts.append(r.choice(['sect$num', 'sect$num(4)', 'f$num(3)', '$num', 'file-$num(2)']))
+    # (else: no numbered fail-safe alternative - a unit without a usable variable makes the run END WITH AN ERROR,
+    #  it must not silently stay in its parent's file)
     prefix = r.choice(['', '', '', 'p_'])
     suffix = r.choice(['', '', '', '-x'])
     if static and r.random() < 0.12:
@@ -295,6 +298,19 @@ def gen_template(r):
             alts = [a + '.html' if r.random() < 0.4 and ('$num' in a or '$id' in a or _re.sub(r'\$\{?\w+\}?(\(\d\))?', '', a)) else a for a in alts]
     wild = '%s[%s]%s' % (prefix, ', '.join(alts), suffix)
     return ' '.join(static + [wild]), False
+
+
+def has_failsafe(tpl):
+    """True if the wildcard has an alternative whose only variable is $num (a name can always be formed)."""
+    import re
+    m = re.search(r'\[([^\]]*)\]', tpl)
+    if not m:
+        return False
+    for alt in m.group(1).split(','):
+        vs = set(re.findall(r'\$\{?(\w+)\}?', alt))
+        if vs == set(['num']):
+            return True
+    return False
 
 
 def collide_labels(r, doc, tpl):
@@ -618,6 +634,12 @@ def execute(record):
                 out = outs[-1]
                 if outs[0]['ok'] and set(outs[0]['files']) & set(out['files']):
                     info['stale_same_name'] = 1
+            if (not out['ok'] and out.get('exception') == 'ValueError' and 'Filename could not be created' in (out.get('message') or '')
+                    and not has_failsafe(cfg['template']) and not doc.get('corpus')):
+                # the documented outcome when no name can be formed (C15 judges the generator itself): no files to judge
+                info['no_failsafe_alternative_error'] = 1
+                log.append([s, 'no-name-error'])
+                continue
             v, summ = judge(doc, cfg, out, info)
             log.append([s, out['ok'], core.hexdigest(out.get('files')), out.get('issued')])
             if v is not None:
